@@ -50,6 +50,15 @@ impl<T: Trace> Cc<T> {
     #[must_use = "newly created Cc is immediately dropped"]
     #[track_caller]
     pub fn new(t: T) -> Cc<T> {
+        Cc::new_with(move || t)
+    }
+
+    /// Like [`Cc::new`], but the value is created by `f` only after the automatically-started collection (if any) has
+    /// completed. Thus, if that collection panics, the value is never created (and never dropped while unwinding).
+    #[inline]
+    #[must_use = "newly created Cc is immediately dropped"]
+    #[track_caller]
+    pub(crate) fn new_with(f: impl FnOnce() -> T) -> Cc<T> {
         state(|state| {
             #[cfg(debug_assertions)]
             if state.is_tracing() {
@@ -60,7 +69,7 @@ impl<T: Trace> Cc<T> {
             super::trigger_collection(state);
 
             Cc {
-                inner: CcBox::new(t, state),
+                inner: CcBox::new(f(), state),
                 _phantom: PhantomData,
             }
         })
